@@ -101,6 +101,9 @@ func (s *nestedSpace) Ops(w *World) []Op {
 			limit = s.lr
 		}
 		classes := append([]string{}, simple...)
+		if s.spec.Extra["childcls"] == 1 && !isRoot {
+			classes = []string{"t", "h"}
+		}
 		if d < s.maxDepth-1 && live < s.maxc && c.Parent != nil || isRoot && live < s.maxc {
 			classes = append(classes, conts...)
 		}
@@ -184,7 +187,24 @@ func (s *nestedSpace) Ops(w *World) []Op {
 				}
 			}
 		}
-		if n > 0 {
+		twoh := s.spec.Extra["twoh"] == 1
+		if twoh && c.Parent != nil {
+			// second live handle to a single-slab child: every child operation also through it
+			if c.AltArr == nil && c.AltMap == nil {
+				ops = append(ops, Op{K: "get2", C: c.Serial})
+			} else {
+				var extra []Op
+				for _, o := range ops {
+					if o.C == c.Serial && o.V != "@" && !o.D {
+						o2 := o
+						o2.Alt = true
+						extra = append(extra, o2)
+					}
+				}
+				ops = append(ops, extra...)
+			}
+		}
+		if n > 0 && !(twoh && c.Parent != nil) {
 			ops = append(ops, Op{K: "pop", C: c.Serial})
 		}
 		if (c.TypeID == 7 || c.TypeID == 42) && s.spec.Extra["nosettype"] != 1 {
@@ -199,7 +219,9 @@ func (s *nestedSpace) Ops(w *World) []Op {
 		}
 		// mutation through the handle held before detachment, while the container lives elsewhere
 		// (or nowhere) through the handle obtained from the value handed back
-		if s.detach && (c.StaleArr != nil || c.StaleMap != nil) && c.FormerParent != nil && !c.FormerParent.Dead && !isAncestor(c.FormerParent, c) && !isAncestor(c, c.FormerParent) {
+		// (only when the container now lives in a different tree than its former parent: the oracle judges
+		// the former parent's whole tree, which must not contain the container mutated through two handles)
+		if s.detach && (c.StaleArr != nil || c.StaleMap != nil) && c.FormerParent != nil && !c.FormerParent.Dead && rootOf(c.FormerParent) != rootOf(c) {
 			ops = append(ops, Op{K: "stalemut", C: c.Serial})
 		}
 	}
@@ -296,4 +318,11 @@ func (w *World) IterGet(c *Cont) error {
 	}
 	w.dropDescendantHandles(c)
 	return nil
+}
+
+func rootOf(c *Cont) *Cont {
+	for c.Parent != nil {
+		c = c.Parent
+	}
+	return c
 }
